@@ -9,6 +9,7 @@
 mod checks;
 mod core;
 mod driver;
+mod ident;
 mod interpose;
 mod prng;
 mod tape;
